@@ -22,10 +22,12 @@ LEAN_TARGETS = ['NibabelModel.Props.C19']
 THEOREMS = [
     'Nb.C19.geometry_roundtrip',
     'Nb.C19.morph_roundtrip',
+    'Nb.C19.morph_accepts_iff',
     'Nb.C19.backMap_inverse',
+    'Nb.C19.annot_roundtrip_general',
     'Nb.C19.annot_roundtrip',
-    'Nb.C19.annot_zero_rgb_witness',
     'Nb.C19.annot_zero_rgb_general',
+    'Nb.C19.annot_zero_rgb_witness',
     'Nb.C19.annot_zero_vertices_orig_counterexample',
     'Nb.C19.annot_empty_ctab_unlabeled_witness',
     'Nb.C19.mgh_shape_roundtrip',
@@ -791,7 +793,29 @@ def signature(case, what):
     return d['op'] + ':other'
 
 
+def in_known_class(d):
+    """input classes of the open findings (format limits)"""
+    if d['op'] == 'annot':
+        n = len(d['ctab'])
+        if n == 0 and d['labels']:
+            return True
+        return any(0 <= l < n and pack(d['ctab'][l]) == 0 for l in d['labels'])
+    if d['op'] == 'mgh':
+        return len(d['shape']) == 4 and d['shape'][3] == 1
+    return False
+
+
 def shrink_candidates(case):
+    """smaller cases; a case outside the known-finding classes is never shrunk into one of them (the
+    runner would then file a new failure under the known signature)"""
+    keep_out = not in_known_class(case.data)
+    for c in _shrink_candidates(case):
+        if keep_out and in_known_class(c.data):
+            continue
+        yield c
+
+
+def _shrink_candidates(case):
     d = case.data
     op = d['op']
     if op == 'annot':
@@ -944,14 +968,15 @@ def gen_geom_edge(rng):
 
 def gen_morph(rng, big=False):
     n = rng.choice([0, 1, 1, 2, 3, 5, 8, 17]) if not big else rng.randrange(100, 3000)
-    kind = rng.randrange(8)
+    kind = rng.choice([0, 0, 1, 1, 2, 2, 3, 3, 4, 5, 6, 7])
     shape = [[n], [n, 1], [1, n], [n, 1, 1], [1, 1, n], [n, 1, 1, 1], [1, n, 1], None][kind]
     if shape is None:
         a = rng.choice([0, 2, 3])
         b = rng.choice([0, 2, 3])
         shape = rng.choice([[a, b], [], [a, b, 1], [a, 1, b]])
         n = int(np.prod(shape)) if shape else 1
-    fnum = rng.choice([0, 0, 0, 1, 327680, -1, 2 ** 31 - 1, -2 ** 31, 2 ** 31, -2 ** 31 - 1, rng.randrange(-2 ** 33, 2 ** 33)])
+    fnum = rng.choice([0, 0, 0, 1, 327680, -1, 2 ** 31 - 1, -2 ** 31, rng.randrange(-2 ** 31, 2 ** 31),
+                       rng.choice([2 ** 31, -2 ** 31 - 1, rng.randrange(-2 ** 33, 2 ** 33)])])
     return {'op': 'morph', 'shape': shape, 'vals': [rand_f32(rng) for _ in range(n)], 'fnum': fnum,
             'f64': rng.random() < 0.5}
 
